@@ -2935,12 +2935,46 @@ func (d *Document) serializeRelationships() {
 	d.parts["_rels/.rels"] = append([]byte(xml.Header), data...)
 }
 
+// nextDocumentRelationshipID 返回 word/_rels/document.xml.rels 中尚未使用的关系ID。
+// rId1 保留给 styles.xml；从“现有关系数+2”开始查找，因此对ID连续的文档与原先的编号方式一致，
+// 而对打开的、ID 不连续或不以 rId 开头的文档也不会产生重复ID。
+func (d *Document) nextDocumentRelationshipID() string {
+	used := map[string]bool{"rId1": true}
+	for _, rel := range d.documentRelationships.Relationships {
+		used[rel.ID] = true
+	}
+	for n := len(d.documentRelationships.Relationships) + 2; ; n++ {
+		id := fmt.Sprintf("rId%d", n)
+		if !used[id] {
+			return id
+		}
+	}
+}
+
+// stylesRelationshipID 返回保存时 styles.xml 关系使用的ID：通常是 rId1，
+// 若打开的文档已把 rId1 用于其他关系（正文中的引用依赖它），则另选一个未使用的ID。
+func (d *Document) stylesRelationshipID() string {
+	used := map[string]bool{}
+	for _, rel := range d.documentRelationships.Relationships {
+		used[rel.ID] = true
+	}
+	if !used["rId1"] {
+		return "rId1"
+	}
+	for n := len(d.documentRelationships.Relationships) + 2; ; n++ {
+		id := fmt.Sprintf("rId%d", n)
+		if !used[id] {
+			return id
+		}
+	}
+}
+
 // serializeDocumentRelationships 序列化文档关系
 func (d *Document) serializeDocumentRelationships() {
 	// 获取已存在的关系，从索引1开始（保留给styles.xml）
 	relationships := []Relationship{
 		{
-			ID:     "rId1",
+			ID:     d.stylesRelationshipID(),
 			Type:   "http://schemas.openxmlformats.org/officeDocument/2006/relationships/styles",
 			Target: "styles.xml",
 		},
